@@ -487,7 +487,7 @@ func c04Vars(c *Ctx, r *Report, a *Anchors) {
 						}
 					}
 					errv := extractOf(call, 1)
-					underNil := errv != nil && hasGuard(b, func(g guard) bool {
+					errNil := func(g guard) bool {
 						v, eq, ok := nilCmp(g.cond)
 						if !ok || eq != g.val {
 							return false
@@ -499,7 +499,17 @@ func c04Vars(c *Ctx, r *Report, a *Anchors) {
 							}
 						}
 						return false
-					})
+					}
+					underNil := errv != nil && hasGuard(b, errNil)
+					if !underNil && errv != nil && lf.pred != nil {
+						// the coerced value joins the raw one before the store ("provided = coerced" on one side): the test
+						// holds on the edge the coerced value arrives by
+						for _, g := range edgeGuards(lf.pred, lf.phi.Block()) {
+							if errNil(g) {
+								underNil = true
+							}
+						}
+					}
 					r.check("C04.VARS", fnName(fn)+": supplied variable stored as CoerceIn result of its declared type, under err == nil", mu.Pos(), fromType && underNil, "a caller-supplied variable value must be coerced by the variable's declared type and a coercion error must return before any resolver runs")
 					continue
 				}
